@@ -147,6 +147,13 @@ BASE = dict(
     p_parallel_root=0.15, p_after=0.0, max_states=40, p_final_trans=0.0,
     wild=False, p_internal_false=0.0, p_invoke=0.0, p_invoke_fail=0.3, ondone_forward=True,
     p_prefix_key=0.12,
+    # share of atom guards written as ONE parameterised predicate `gP` (static params, computed
+    # params, params whose computation raises for the raising atom, a two-argument guard handed
+    # params it ignores): candidates then share a guard name but not a verdict
+    p_guard_obj=0.0,
+    # raises written with an explicit zero delay (0 / 0.0 / computed 0): still "at once";
+    # p_raise2: a second raise on the same transition, so that their order is observable
+    p_raise_d0=0.0, p_raise2=0.0,
 )
 
 PROFILES: Dict[str, Dict[str, Any]] = {
@@ -187,8 +194,11 @@ def gen_tree(rng: random.Random, P: Dict[str, Any]) -> Tree:
         if parent is not None and p_prefix and parent.children and rng.random() < p_prefix:
             # a sibling whose name merely EXTENDS another sibling's name ("pay" / "payment"):
             # id-prefix tests without the '.' separator confuse the two subtrees
+            # (half of them continue with '-', which sorts BEFORE the '.' separator: whole ids then
+            #  order differently from their segment lists)
             base = rng.choice(parent.children).key
-            k = base + "x"
+            ext = "x" if rng.random() < 0.5 else "-x"
+            k = base + ext
             while any(c.key == k for c in parent.children):
                 k += "x"
             return k
@@ -446,6 +456,12 @@ def gen_case(rng: random.Random, P: Dict[str, Any]) -> Case:
                 later = list(case.events) if P.get("loops") else [e for e in case.events if e > t.event]
                 if later:
                     t.actions.append({"$": "raise", "ev": rng.choice(later)})
+                    if P["p_raise_d0"] and rng.random() < P["p_raise_d0"]:
+                        t.actions[-1]["d0"] = rng.choice([1, 2, 3])
+                    if P["p_raise2"] and rng.random() < P["p_raise2"]:
+                        t.actions.append({"$": "raise", "ev": rng.choice(later)})
+                        if P["p_raise_d0"] and rng.random() < P["p_raise_d0"] * 0.5:
+                            t.actions[-1]["d0"] = rng.choice([1, 2, 3])
             if rng.random() < P["p_effects"]:
                 t.actions.append(_rand_effect(rng, case, f"fx.t{t.tid}"))
         for s in states:
@@ -512,6 +528,9 @@ def build_plan(case: Case, fx: Optional[Dict[str, List[Any]]] = None) -> Dict[st
             d["actions"] = list(t.actions)
         if t.guard is not None:
             d["guard"] = t.guard
+            pg = case.profile.get("p_guard_obj", 0.0)
+            if pg and isinstance(t.guard, str) and random.Random(t.tid * 7919 + 13).random() < pg:
+                d["guard"] = {"$g": t.guard, "form": t.tid % 4}
         if t.reenter:
             d["reenter"] = True
         return d
@@ -530,6 +549,12 @@ def build_plan(case: Case, fx: Optional[Dict[str, List[Any]]] = None) -> Dict[st
             if n.hist_default is not None:
                 sp = spellings(n, n.hist_default)
                 d["target"] = sp.get("bare") if n.hist_default.parent is n.parent else sp["abs"]
+                # a third of the defaults are written relative to the history state's parent
+                # ('.child', '.child.grandchild'), the remaining deep ones as a dotted path or '#id'
+                if n.index % 3 == 1 and "reldot" in sp:
+                    d["target"] = sp["reldot"]
+                elif n.index % 3 == 2 and "dotted" in sp and not getattr(tree.root, "dup_keys", False):
+                    d["target"] = sp["dotted"]
             return d
         if n.kind == "final":
             d["type"] = "final"
@@ -588,8 +613,28 @@ def materialize(plan: Any) -> Any:
     if isinstance(plan, dict):
         if "$" in plan:
             return _mat_effect(plan)
+        if "$g" in plan:
+            return _mat_guard(plan)
         return {k: materialize(v) for k, v in plan.items()}
     return plan
+
+
+class ParamsRaised(Exception):
+    pass
+
+
+def _mat_guard(e: Dict[str, Any]) -> Dict[str, Any]:
+    atom, form = e["$g"], e.get("form", 0)
+    if form == 1:
+        return {"type": "gP", "params": (lambda a, _a=atom: {"atom": _a})}
+    if form == 2 and atom == "gR":
+        def boom(a):
+            _cb("guard-params-raised")
+            raise ParamsRaised("computing the params of gP")
+        return {"type": "gP", "params": boom}
+    if form == 3:
+        return {"type": atom, "params": {"unused": 1}}      # a (context, event) guard given params
+    return {"type": "gP", "params": {"atom": atom}}
 
 
 def _mat_effect(e: Dict[str, Any]) -> Dict[str, Any]:
@@ -614,7 +659,10 @@ def _mat_effect(e: Dict[str, Any]) -> Dict[str, Any]:
     if k == "set":
         return {"type": "xstate.assign", "params": {"assignment": {e["key"]: e["val"]}}}
     if k == "raise":
-        return {"type": "xstate.raise", "params": {"event": {"type": e["ev"], "raised": True}}}
+        d = {"type": "xstate.raise", "params": {"event": {"type": e["ev"], "raised": True}}}
+        if e.get("d0"):
+            d["params"]["delay"] = {1: 0, 2: 0.0, 3: (lambda a: 0)}[e["d0"]]
+        return d
     if k == "braise":  # budgeted raise through choose + assign + raise
         return {"type": "xstate.choose", "params": {"conditions": [
             {"guard": "hasBudget", "actions": [
